@@ -6,6 +6,7 @@ import (
 	"encoding/json"
 	"errors"
 	"fmt"
+	"golang.org/x/crypto/nacl/secretbox"
 	"io"
 	"strings"
 	"testing"
@@ -783,6 +784,36 @@ func (e *secretExec) step(s *SecStep) {
 			k    []byte
 		}{{"nil", nil}, {"all-zero", make([]byte, 32)}, {"empty", []byte{}}, {"31 bytes long", labelNonce("bad", 31)}, {"33 bytes long", labelNonce("bad", 33)}, {"64 bytes long", labelNonce("bad", 64)}} {
 			tryOpt(bk.name, bk.k)
+		}
+		// ... also when the stored value IS a well-formed box made under that very key (anyone can
+		// make one with the public primitive and put it into a token): the all-zero key is refused
+		// on the read side whatever it is held against
+		{
+			var zk [32]byte
+			var nonce [24]byte
+			copy(nonce[:], labelNonce("zero-key-box", 24))
+			forged := secretbox.Seal(nonce[:], []byte("attacker chosen"), &nonce, &zk)
+			m := e.withStored(forged)
+			for _, asStr := range []bool{true, false} {
+				var rerr error
+				var got []byte
+				if guard(o, "GetEncrypted(all-zero key, box made under it)", func() {
+					if asStr {
+						var gs string
+						gs, rerr = m.GetEncryptedString("k", zk[:])
+						got = []byte(gs)
+					} else {
+						got, rerr = m.GetEncryptedBytes("k", zk[:])
+					}
+				}) {
+					return
+				}
+				o.Eval("C19")
+				e.sig("badkey:zero-key-box", fmt.Sprint(rerr != nil))
+				if rerr == nil {
+					o.Violate("C19", "bad-key-accepted", fmt.Sprintf("GetEncrypted accepted the all-zero key for a stored box made under it and returned %d bytes", len(got)), map[string]string{"key": "all-zero", "where": "forged box"})
+				}
+			}
 		}
 		try("nil", nil)
 		try("all-zero", make([]byte, 32))
